@@ -317,6 +317,18 @@ pub fn plan(tier: Tier) -> Plan {
     family::<Moments4>(&mut checks, q);
     family::<M6>(&mut checks, q);
     family::<M10>(&mut checks, q);
+    // long inputs (10^5..10^6 items) through a few split-tree shapes
+    let n = if q { (1 << 17) + 3 } else { 1_000_003 };
+    for a in ["small", "off9"] {
+        checks.push(super::longrun::longpar::<Mean>(a, 3, 2, n, filter));
+        checks.push(super::longrun::longpar::<Variance>(a, 3, 2, n, filter));
+        checks.push(super::longrun::longpar::<Skewness>(a, 3, 2, n, filter));
+        checks.push(super::longrun::longpar::<Kurtosis>(a, 3, 2, n, filter));
+        checks.push(super::longrun::longpar::<Moments4>(a, 3, 2, n, filter));
+        checks.push(super::longrun::longpar::<M6>(a, 3, if q { 1 } else { 2 }, n, filter));
+    }
+    checks.push(super::longrun::longpar::<Min>("ext", 5, 2, n, filter));
+    checks.push(super::longrun::longpar::<Max>("ext", 5, 2, n, filter));
     let reps = if q { 2 } else { 20 };
     checks.push(Box::new(RealRayon::<Mean> { reps, _t: Default::default() }));
     checks.push(Box::new(RealRayon::<Variance> { reps, _t: Default::default() }));
@@ -326,7 +338,7 @@ pub fn plan(tier: Tier) -> Plan {
     let mut a = common_assumptions();
     a.push("rayon drives the consumer through its documented plumbing protocol (split_off_left / to_reducer / into_folder / consume / complete / reduce); its scheduler (deques, latches) is trusted and not model checked".into());
     Plan {
-        rule: "every word over 4-letter sub-alphabets up to the length bound x EVERY binary split tree over every composition into contiguous chunks (188 trees for 6 items; with up to two empty leaves for the shorter words; both execution orders at every node for trees of <= 4 leaves) x both FromParallelIterator impls (f64 and &f64), driven sequentially through rayon's public plumbing into the crate's real fold/reduce code; len exact, Min/Max exactly sequential, every statistic inside the single-pass envelope; real-rayon conformance: real pools of 1..16 threads x with_min_len/with_max_len over a logging producer, each recorded split tree replayed through the scripted driver and required to give the bit-identical estimator (counted in traces_validated_against_impl)".into(),
+        rule: "long inputs: periodic inputs (every word of length <= 2 over 3 letters) of 2^17+3 (10^6+3 thorough) items through ten split-tree shapes (single leaf, balanced halving to four leaf sizes, left/right combs, one-item and empty first chunks); AND every word over 4-letter sub-alphabets up to the length bound x EVERY binary split tree over every composition into contiguous chunks (188 trees for 6 items; with up to two empty leaves for the shorter words; both execution orders at every node for trees of <= 4 leaves) x both FromParallelIterator impls (f64 and &f64), driven sequentially through rayon's public plumbing into the crate's real fold/reduce code; len exact, Min/Max exactly sequential, every statistic inside the single-pass envelope; real-rayon conformance: real pools of 1..16 threads x with_min_len/with_max_len over a logging producer, each recorded split tree replayed through the scripted driver and required to give the bit-identical estimator (counted in traces_validated_against_impl)".into(),
         assumptions: a,
         checks,
     }
